@@ -34,6 +34,11 @@ def tz2025b(normalise):
     return p, {z for z, _ in left}
 
 
+def unsupported():
+    """Hand-written source of zic-accepted constructs the compiler documents as unsupported (data/unsupported.zi)."""
+    return tzsrc.parse_long((vlib.VERIF / "data" / "unsupported.zi").read_text())
+
+
 def features():
     """Hand-written source with features real tzdata rarely shows after 2000 (data/features.zi)."""
     return tzsrc.parse_long((vlib.VERIF / "data" / "features.zi").read_text())
@@ -85,6 +90,8 @@ def main():
             c03lib.check_program(v, "recon-zonedb", recon("zonedb"), work, scopes=("basic",), stats=st, grid=a.grid, nbhd=a.nbhd, py_grid_s=a.pygrid, san=a.san, targets=targets)
         elif a.kind == "features":
             c03lib.check_program(v, "features", features(), work, stats=st, grid=a.grid, nbhd=a.nbhd, py_grid_s=a.pygrid, san=a.san, targets=targets)
+        elif a.kind == "unsupported":
+            c03lib.check_program(v, "unsupported-constructs", unsupported(), work, stats=st, grid=a.grid, nbhd=a.nbhd, py_grid_s=a.pygrid, san=a.san, targets=targets)
         elif a.kind == "tz2025b":
             p, pz = tz2025b(True)
             info["percent_z_zones_left"] = sorted(pz)
